@@ -121,6 +121,27 @@ PLAN = {
         "level_text": "Selection and hand-over are postconditions of ProtocolWrapper.__init__/handle and _check_protocol for all requests; the pass-through buffer satisfies cat(delivered, buffer) == fed as a class invariant.",
         "level_note": "Trusted: pyvc encoder, M_h11/M_h2. The h2c path itself is broken on the pinned tree (findings F13, F13b, F13c), demonstrated natively.",
     },
+    "C18": {
+        "units": [H1P + "__init__", HP + "__init__", "hypercorn.asyncio.worker_context:WorkerContext.mark_request", "hypercorn.trio.worker_context:WorkerContext.mark_request",
+                  H1P + "stream_send", H1P + "_create_stream", HP + "_handle_events", HP + "_create_stream"],
+        "trusted_base": LIB_H11 + LIB_H2 + LIB_RT,
+        "assumptions": COMMON_ASSUME + ["enforcement of h11_max_incomplete_size, h2_max_concurrent_streams and h2_max_header_list_size themselves is h11's / h2's: the obligations are that hypercorn hands the configured values over", "the max_requests jitter computation in worker_serve is not under contract yet"],
+        "explanation": "configured limits reach the libraries (constructor postconditions), connection: close exactly when keep_alive_max_requests is reached (h11), GOAWAY when exceeded (h2), requests counted once, mark_request arithmetic on both workers",
+        "level_text": "Integer postconditions on the counters and constructor data-flow postconditions, proved for all values of the limits.",
+        "level_note": "Trusted: pyvc encoder; M_h11/M_h2; the limits' enforcement inside h11/h2.",
+    },
+    "C20": {
+        "units": ["hypercorn.middleware.proxy_fix:_get_trusted_value", "hypercorn.middleware.proxy_fix:ProxyFixMiddleware.__call__",
+                  "hypercorn.middleware.dispatcher:_DispatcherMiddleware.__call__",
+                  "hypercorn.middleware.http_to_https:HTTPToHTTPSRedirectMiddleware._new_url", "hypercorn.middleware.http_to_https:HTTPToHTTPSRedirectMiddleware.__call__",
+                  "hypercorn.middleware.http_to_https:HTTPToHTTPSRedirectMiddleware._send_websocket_redirect"],
+        "trusted_base": ["abstract callables for the wrapped application / send / receive (pyvc:Callable)", "DispatcherMiddleware.mounts modelled as an insertion ordered sequence of prefixes of any length (pyvc:Mounts)"],
+        "assumptions": ["urllib.parse.urlunsplit, str.split, strip and lower are uninterpreted functions", "raw_path and query_string are ASCII (ASGI percent-encoding)",
+                        "the lifespan fan-out of DispatcherMiddleware (startup/shutdown complete only when every mount completed) is NOT under contract"],
+        "explanation": "proxy fix: trusted value is counted from the right end, zero hops / too few values leave the scope untouched, the caller's scope is never written; dispatcher: first matching mount in dict order with the prefix stripped and never empty, else 404 (loop invariant over the mount sequence); redirect: 307 to the same host/path/query, secure requests passed through with identical arguments",
+        "level_text": "Postconditions and loop invariants proved for all header lists, hop counts, mount tables of any size and request paths.",
+        "level_note": "Trusted: pyvc encoder; string helper functions uninterpreted; lifespan fan-out not covered; 'modern' mode falling back to X-Forwarded-* when no Forwarded header is usable is an observation, not claimed either way.",
+    },
     "C08": {
         "units": [SB + m for m in ("__init__", "push", "pop", "drain", "set_complete", "close", "complete")] + [HP + m for m in ("_window_updated", "_send_data", "stream_send", "handle", "send_task")],
         "trusted_base": LIB_H2,
